@@ -384,6 +384,12 @@ impl SwiftField for Field11 {
     where
         Self: Sized,
     {
+        if !input.is_ascii() {
+            return Err(ParseError::InvalidFormat {
+                message: "Field 11 must contain only ASCII characters".to_string(),
+            });
+        }
+
         // Field 11 requires at least 9 characters (3 for MT + 6 for date)
         if input.len() < 9 {
             return Err(ParseError::InvalidFormat {
